@@ -810,7 +810,17 @@ impl Sim {
         let p2: Arc<dyn Persist> = Arc::new(KVVPersister(store2, JsonFormat));
         let nodes = p2.get_nodes().map_err(|e| format!("{:?}", e))?;
         let (node_id, entry) = nodes.into_iter().next().ok_or("no node in store")?;
-        Node::restore_node(&node_id, entry, &self.seed, services(p2.clone(), self.clock.clone(), self.perm)).map_err(|e| format!("{:?}", e))
+        // a store the signer cannot come back from (restore aborts) is reported like a refused restore
+        let r = std::panic::catch_unwind(std::panic::AssertUnwindSafe(|| {
+            Node::restore_node(&node_id, entry, &self.seed, services(p2.clone(), self.clock.clone(), self.perm))
+        }));
+        match r {
+            Ok(r) => r.map_err(|e| format!("{:?}", e)),
+            Err(e) => {
+                let msg = if let Some(s) = e.downcast_ref::<String>() { s.clone() } else if let Some(s) = e.downcast_ref::<&str>() { s.to_string() } else { "?".into() };
+                Err(format!("restore aborted: {}", msg.chars().take(160).collect::<String>()))
+            }
+        }
     }
 
     /// Replace the running node by one restored from the store (a real restart).
